@@ -4,10 +4,10 @@
 # 2. applies the patch to /repo's working tree, runs the quick checks, reverts
 # 3. stores patch.diff, demo.rs, README.md and meta.json under /verif/seeded/<PROP>/<mN>/
 PROP=$1; WT=$2; M=$3; shift 3; CHECKS=("$@"); [ ${#CHECKS[@]} = 0 ] && CHECKS=("$PROP")
-S=$WT/_seed/$M; OUT=/verif/seeded/$PROP/$M; mkdir -p $OUT
+S=$WT/_seed/$M; OM=${SEED_OUT:-$M}; OUT=/verif/seeded/$PROP/$OM; mkdir -p $OUT
 cp $S/patch.diff $S/demo.rs $OUT/ 2>/dev/null; cp $S/README.md $OUT/ 2>/dev/null
 # PHASE=A: only the confirmation in the worktree (can run in parallel for different worktrees); PHASE=B: only the /repo part
-A=/tmp/seedA_${PROP}_$M.txt
+A=/tmp/seedA_${PROP}_$OM.txt
 if [ "$PHASE" != "B" ]; then
 cd $WT && git checkout -q -- src && rm -f tests/seed_demo_*.rs
 export CARGO_NET_OFFLINE=true CARGO_TARGET_DIR=$WT/target
@@ -46,7 +46,7 @@ for c in "${CHECKS[@]}"; do
 done
 results="${results%,}}"
 git -C /repo checkout -- .
-python3 - "$OUT" "$PROP" "$M" "$base" "$without" "$with" "$results" <<'PY'
+python3 - "$OUT" "$PROP" "$OM" "$base" "$without" "$with" "$results" <<'PY'
 import json,sys
 out,prop,m,base,without,with_,res=sys.argv[1:8]
 readme=''
